@@ -438,7 +438,12 @@ class RunWorld(World):
         self.log.append(('iter', self.iterations))
         if self.script:
             act = self.script.pop(0)
-            if act is not None:
+            if act == 'quiet':
+                # wait here until queue and tasks are empty and an iteration logged nothing
+                q, t = self.pending()
+                if not (q == 0 and not t and len(self.log) == self.lastlen + 1) and self.iterations < self.horizon:
+                    self.script.insert(0, 'quiet')
+            elif act is not None:
                 act(self)
             self.idle = 0
             self.lastlen = len(self.log)
